@@ -173,6 +173,17 @@ pub fn header_resume_contexts() -> Vec<Vec<u8>> {
     [&b""[..], b"a:a\r\n", b"(\r\n", b" "].iter().map(|s| s.to_vec()).collect()
 }
 
+/// Alternative start lines in front of a header block: LF-only line end, no reason phrase.
+pub fn start_line_variants(entry: Entry) -> Vec<&'static [u8]> {
+    if entry.is_req() {
+        vec![REQ_LINE, b"GET / HTTP/1.1\n", b"\r\nPOST /p HTTP/1.0\n"]
+    } else if entry.is_resp() {
+        vec![STATUS_LINE, b"HTTP/1.1 200 OK\n", b"HTTP/1.1 200\r\n", b"\nHTTP/1.0 204\n"]
+    } else {
+        vec![b""]
+    }
+}
+
 pub fn start_line_for(entry: Entry) -> &'static [u8] {
     if entry.is_req() {
         REQ_LINE
@@ -305,9 +316,8 @@ impl Walker<'_> {
             }
             Companions::Lockstep => {
                 // primary: parse_headers on w; companions: heads ending in w
-                for e in [Entry::ReqCfg, Entry::RespCfg] {
+                for (e, pre) in [Entry::ReqCfg, Entry::RespCfg].iter().flat_map(|&e| start_line_variants(e).into_iter().map(move |v| (e, v))) {
                     let l2 = Lane { entry: e, cfg: 0, ..lane };
-                    let pre = start_line_for(e);
                     self.scratch.clear();
                     self.scratch.extend_from_slice(pre);
                     self.scratch.extend_from_slice(&self.buf);
